@@ -371,3 +371,41 @@ func VerifC25DueInstantIgnoresLocation() {
 	check(storage.LifecycleNoncurrentTransitionDueTime(&storage.LifecycleNoncurrentVersionTransition{NoncurrentDays: &days, StorageClass: "GLACIER"}, local))
 	verifCover("zoned")
 }
+
+// VerifC25DeleteMarkers: an expired-object-delete-marker rule removes a current
+// delete marker only when the rule is enabled, says so (ExpiredObjectDeleteMarker
+// = true, not false and not absent) and the key has no object version left.
+func VerifC25DeleteMarkers() {
+	now := verifMathInt64("now")
+	verifAssume(now >= 0 && now <= 1<<34)
+	st := &verifC25Store{tags: map[string]string{}}
+	n := verifPick("versions", 1, 2)
+	currentIsMarker := verifBool("current-is-marker")
+	olderIsMarker := verifBool("older-is-marker")
+	st.versions = append(st.versions, storage.ObjectVersion{Key: storage.MustNewObjectKey("k"), VersionID: "v0", IsLatest: true, IsDeleteMarker: currentIsMarker, LastModified: verifC25At(1000), Size: 1})
+	if n == 2 {
+		st.versions = append(st.versions, storage.ObjectVersion{Key: storage.MustNewObjectKey("k"), VersionID: "v1", IsDeleteMarker: olderIsMarker, LastModified: verifC25At(500), Size: 1})
+	}
+	rule := storage.LifecycleRule{Status: storage.LifecycleRuleStatusEnabled, Expiration: &storage.LifecycleExpiration{}}
+	if verifBool("rule-disabled") {
+		rule.Status = storage.LifecycleRuleStatusDisabled
+	}
+	flag := verifPick("expired-object-delete-marker", 0, 2) // 0 absent, 1 false, 2 true
+	t, f := true, false
+	switch flag {
+	case 1:
+		rule.Expiration.ExpiredObjectDeleteMarker = &f
+	case 2:
+		rule.Expiration.ExpiredObjectDeleteMarker = &t
+	}
+	m := verifC25Middleware(st, now)
+	m.reconcileBucket(context.Background(), storage.MustNewBucketName("bucket"), &storage.BucketLifecycleConfiguration{Rules: []storage.LifecycleRule{rule}}, nil)
+	onlyMarkers := currentIsMarker && (n == 1 || olderIsMarker)
+	due := rule.Status == storage.LifecycleRuleStatusEnabled && flag == 2 && onlyMarkers
+	if !due {
+		verifAssert(len(st.calls) == 0, "C25: a version was deleted although no rule makes it due (delete-marker expiration)")
+		return
+	}
+	verifCover("marker-expired")
+	verifAssert(len(st.calls) == 1 && st.calls[0].kind == "delete" && st.calls[0].versionID != nil && *st.calls[0].versionID == "v0", "C25: the expired delete marker was not removed by its version id")
+}
